@@ -162,6 +162,10 @@ func c03Run(c *Ctx, mem *fastMem, e *enc16, base z80.States, x0, x1 uint32, ys [
 		exp.AF.Lo = nf
 		exp.PC = c03PC + uint16(len(e.Bytes))
 		exp.IR.Lo = cpu.IR.Lo
+		if x == 0x7fff && (yy == 0x0001 || single || doubling) && f == 0x01 && c.R.NSamples() < 10 {
+			c.R.Sample(map[string]interface{}{"encoding": e.Name, "bytes": HexBytes(e.Bytes), "x": h16(x), "y": h16(yy), "F_in": h8(f),
+				"result": h16(get16(&cpu.States, e.Dst)), "F_out": h8(cpu.States.AF.Lo), "oracle_result": h16(r), "oracle_F": h8(nf)})
+		}
 		if cpu.States != exp || cpu.HALT || mem.writes != 0 {
 			reported++
 			if reported <= 3 {
@@ -305,8 +309,7 @@ func runC03(c *Ctx) {
 		}
 		mu.Unlock()
 	})
-	c.R.Sample(map[string]interface{}{"encoding": "ADC HL,BC", "x": "7FFF", "y": "0000", "F": "01", "want": "8000", "want_F": "94"})
-	c.R.Sample(map[string]interface{}{"encoding": encs[0].Name, "bytes": HexBytes(encs[0].Bytes), "second_operand_lattice_head": fmt.Sprint(lattice[:12])})
+	c.R.Set("second_operand_lattice_head", fmt.Sprint(lattice[:12]))
 	c.R.Set("evaluations", evals)
 	c.R.Set("distinct_nontrivial", evals)
 	c.R.Set("encodings", int64(len(encs)))
